@@ -77,14 +77,26 @@ Theorem C10_step_positions_recovered : forall ids ds,
 Proof. exact step_positions_recovered. Qed.
 Print Assumptions C10_step_positions_recovered.
 
-(* linear_ssa_inverse: PARTIAL -- the exact-position lemma and the id-list invariant above are
-   proved for all inputs; their assembly into "ssa_to_linear (linear_to_ssa p) = p up to the
-   order inside a step, for every valid path" is certified per run by inverse_ok_b on
-   generated general paths (unary, pairwise, n-ary, unsorted steps), not proved *)
-Theorem C10_linear_ssa_inverse_checker_partial : forall path N, inverse_ok_b path N = true ->
+(* linear_ssa_inverse / ssa_linear_inverse, for ALL valid paths (steps of any length >= 1).
+   valid_lin m p: every step is non-empty, duplicate-free, names positions < current number of
+   tensors.  valid_ssa live ssa p: every step is non-empty, duplicate-free and names live ids;
+   used ids die, the fresh id is born.  The converters are exact inverses up to the order inside
+   a step (ssa_to_linear sorts a step ascending, linear_to_ssa lists it by descending position). *)
+Theorem C10_linear_ssa_inverse : forall path N, valid_lin N path ->
+  ssa_to_linear (linear_to_ssa path N) N = map sort_asc path.
+Proof. exact linear_ssa_inverse. Qed.
+Print Assumptions C10_linear_ssa_inverse.
+
+Theorem C10_ssa_linear_inverse : forall spath N, valid_ssa (seq 0 N) N spath ->
+  linear_to_ssa (ssa_to_linear spath N) N = map sort_desc spath.
+Proof. exact ssa_linear_inverse. Qed.
+Print Assumptions C10_ssa_linear_inverse.
+
+(* the per-run checker on generated general paths stays as a cross-check of the model *)
+Theorem C10_linear_ssa_inverse_checker_sound : forall path N, inverse_ok_b path N = true ->
   ssa_to_linear (linear_to_ssa path N) N = map sort_asc path.
 Proof. exact inverse_ok_b_sound. Qed.
-Print Assumptions C10_linear_ssa_inverse_checker_partial.
+Print Assumptions C10_linear_ssa_inverse_checker_sound.
 
 (* non-vacuity: a 5-leaf tree; an order with ties; all conversions agree *)
 Example C10_nonvacuous :
